@@ -259,6 +259,36 @@ def isDefinition : Instruction → Bool
   | .pragma p => p.name == "EXTERN"
   | _ => false
 
+/-- the key under which `add_instruction` stores a definition (container and key inside it) -/
+inductive DefKey where
+  | cal (id : CalibrationIdentifier)
+  | mcal (id : MeasureCalibrationIdentifier)
+  | circuit (name : String)
+  | frame (id : FrameIdentifier)
+  | region (name : String)
+  | gate (name : String)
+  | waveform (name : String)
+  | extern (name : Option String)
+  deriving DecidableEq
+
+def defKey : Instruction → Option DefKey
+  | .calibrationDefinition id _ => some (.cal id)
+  | .measureCalibrationDefinition id _ => some (.mcal id)
+  | .circuitDefinition n _ _ _ => some (.circuit n)
+  | .frameDefinition f => some (.frame f.identifier)
+  | .declaration d => some (.region d.name)
+  | .gateDefinition g => some (.gate g.name)
+  | .waveformDefinition w => some (.waveform w.name)
+  | .pragma p => if p.name == "EXTERN" then some (.extern (externKey p)) else none
+  | _ => none
+
+/-- the keys of everything a program stores outside its body -/
+def Prog.keys (p : Prog) : List DefKey :=
+  p.cals.cals.map (fun c => .cal c.identifier) ++ p.cals.mcals.map (fun c => .mcal c.identifier) ++
+  p.circuits.map (fun kv => .circuit kv.1) ++ p.frames.map (fun kv => .frame kv.1) ++
+  p.memoryRegions.map (fun kv => .region kv.1) ++ p.gateDefinitions.map (fun kv => .gate kv.1) ++
+  p.waveforms.map (fun kv => .waveform kv.1) ++ p.externs.map (fun kv => .extern kv.1)
+
 /-- "hoists declarations out of the body": no definition is left in the body -/
 def Hoisted (body : List Instruction) : Prop := ∀ i ∈ body, isDefinition i = false
 
